@@ -47,7 +47,7 @@ def generate(ctx):
                 o = ('parse:' + t.hex()) if op == 'parse' else ('%s:%d:%s' % (op, rnt, t.hex()))
                 # S: the heap model does not cover the parser (its ledger is ParseDefs'); these cases are judged by the verdict
                 cases.append(Case('hist XS 0 obj;astr:0:x6b:x76;%s;size:0;%s;anull:0:x6e' % (o, o), {'tags': ['parse-in-history', op, 'rnt%d' % rnt]}))
-    n = 400 if quick else 6000
+    n = 400 if quick else 1500
     for i in range(n):
         nops = 40 if quick else rng.choice([20, 40, 80, 200])
         cases.append(coregen.history_case(rng, 'own' if i % 5 else 'dup', nops, 'DX', with_print=True))
